@@ -77,6 +77,13 @@ def strsep (s delim : Bytes) : Option Nat × Bytes :=
   let k := strcspn s delim
   (if s.getD k 0 ≠ 0 then some (k + 1) else none, s.set k 0)
 
+/-- `strsep(&s, delim)` with `*stringp` possibly NULL: the returned token (offset; `none` = NULL),
+    the new `*stringp`, the buffer (`none` = there is none).  With NULL nothing is read or stored. -/
+def strsepP (s : Option Bytes) (delim : Bytes) : Option Nat × Option Nat × Option Bytes :=
+  match s with
+  | none => (none, none, none)
+  | some b => (some 0, (strsep b delim).1, some (strsep b delim).2)
+
 /-! ## memrchr (with repair F16) -/
 
 /-- `(unsigned char)c` for a C `int` -/
